@@ -1027,6 +1027,19 @@ def x10(e: Engine, rep: Report):
                     return None      # what is inside is encoded text (X4)
                 if nm in ('list', 'tuple') and len(x.args) == 1:
                     return verdict(x.args[0], fr, depth + 1)
+                if nm == 'map' and isinstance(f, ast.Name) and \
+                        len(x.args) == 2 and not x.keywords:
+                    # map(F, xs): F(x) for each element
+                    fn2 = x.args[0]
+                    nm2 = fn2.attr if isinstance(fn2, ast.Attribute) else (
+                        fn2.id if isinstance(fn2, ast.Name) else None)
+                    if nm2 == '_b64decode':
+                        return None
+                    if nm2 in ADDRESS_CUTTERS:
+                        return 'passes the decoded address through `%s`' % \
+                            ' '.join(ast.unparse(x).split())[:60]
+                    return 'UNKNOWN:`%s`' % ' '.join(
+                        ast.unparse(x).split())[:50]
                 if nm in ADDRESS_CUTTERS:
                     return 'passes the decoded address through `%s`' % \
                         ' '.join(ast.unparse(x).split())[:60]
